@@ -26,7 +26,9 @@ import vlib
 PID = "C19"
 MODES = [["--line-numbers"], ["--side-by-side"], ["--side-by-side", "--line-numbers", "--width", "60"], [], ["--side-by-side", "--width", "36"],
          ["--line-numbers", "--width", "30"], ["--navigate"], ["--side-by-side", "--wrap-max-lines", "0", "--width", "50"],
-         ["--hunk-header-style", "file line-number syntax"], ["--keep-plus-minus-markers", "--line-numbers"]]
+         ["--hunk-header-style", "file line-number syntax"], ["--keep-plus-minus-markers", "--line-numbers"],
+         ["--commit-decoration-style", "box"], ["--commit-decoration-style", "bold yellow box ul"], ["--commit-style", "raw", "--commit-decoration-style", "ul"],
+         ["--file-style", "raw", "--file-decoration-style", "ul"], ["--hunk-header-style", "raw"]]
 FILE_FMTS = [None, "file://{path}#{line}", "vscode://file/{path}:{line}", "x-editor://open?f={path}&l={line}", "file-line://{path}:{line}"]
 COMMIT_FMT = "https://example.com/repo/commit/{commit}"
 TRANSFORMS = [None, None, "s,src/,SRC:,", "s/\\.rs$/.RUST/", "s/a/@/g"]
@@ -40,8 +42,20 @@ def gen_cases(tier, seed):
         single = r.random() < 0.6
         d = gdiff.gen_diff(r, nsec=1 if single else r.randint(2, 3), log=r.random() < 0.5)
         cases.append({"diff": d, "mode": r.choice(MODES), "fmt": r.choice(FILE_FMTS), "transform": r.choice(TRANSFORMS), "single": single,
-                      "relative": r.random() < 0.15})
+                      "relative": r.random() < 0.15, "coloured": r.random() < 0.4, "seed": i})
     return cases
+
+
+def input_lines(c):
+    lines = gdiff.diff_lines(c["diff"])
+    if c.get("coloured"):
+        # the input as `git log -p --color` prints it: raw styles keep these colours, with and without links
+        import check_c08
+        r = vlib.case_rng(0, PID, ("colour", c.get("seed", 0)))
+        lines = ["\x1b[33m" + l + "\x1b[m" if l.startswith("commit ") else l for l in lines]
+        col = check_c08.colourise([l for l in lines], r)
+        lines = [l if l.startswith("\x1b[33mcommit ") else k for l, k in zip(lines, col)]
+    return lines
 
 
 def link_runs(out):
@@ -86,7 +100,7 @@ def main(tier, replay=None):
         return a
 
     def work(c):
-        inp = ("\n".join(gdiff.diff_lines(c["diff"])) + "\n").encode()
+        inp = ("\n".join(input_lines(c)) + "\n").encode()
         return vlib.run_delta(args_of(c, True), stdin=inp), vlib.run_delta(args_of(c, False), stdin=inp)
 
     with ThreadPoolExecutor(max_workers=vlib.NCPU) as ex:
